@@ -177,11 +177,20 @@ fn run_flow(ctx: &mut Ctx, r: &mut Rng) {
             *post = Some(true);
         }
         let c = q.op(OpKind::CloneH, &[h]);
-        let k = [OpKind::Mul, OpKind::Add, OpKind::Sub, OpKind::CMul, OpKind::CAdd][r.below(5)].clone();
+        // detached by value (`h.clone().untracked()`) or by reference (`c.stop_tracking()`)
+        let by_value = r.chance(1, 2);
+        if by_value {
+            if let Node::Op { post, .. } = &mut q.nodes[c] {
+                *post = Some(false);
+            }
+        }
+        let k = [OpKind::Mul, OpKind::Add, OpKind::Sub, OpKind::CMul, OpKind::CAdd, OpKind::CLibMul][r.below(6)].clone();
         let args = if r.chance(1, 2) { vec![c, h] } else { vec![h, c] };
         let y = q.op(k, &args);
-        if let Node::Op { pre, .. } = &mut q.nodes[y] {
-            pre.push((c, false));
+        if !by_value {
+            if let Node::Op { pre, .. } = &mut q.nodes[y] {
+                pre.push((c, false));
+            }
         }
         if r.chance(1, 2) {
             q.op(OpKind::Add, &[y, h]);
